@@ -52,7 +52,8 @@ import re as _re_mod
 
 # side-effect-free standard-library modules the evaluated code may call on concrete values: they are the language's primitives here,
 # exactly like int() or str.split(); nothing of the repository runs through them
-PURE_STDLIB = {"re": _re_mod, "datetime": _datetime_mod, "calendar": _calendar_mod, "collections": _collections_mod}
+import math as _math_mod
+PURE_STDLIB = {"re": _re_mod, "datetime": _datetime_mod, "calendar": _calendar_mod, "collections": _collections_mod, "math": _math_mod}
 
 
 def _pure_stdlib(dotted: str) -> Any:
@@ -193,6 +194,9 @@ class Interp:
             c = self.truth(self.eval(st.test, env, f))
             self.trace.append(f"L{st.lineno}:{'T' if c else 'F'}")
             self.exec_block(st.body if c else st.orelse, env, f)
+        elif isinstance(st, ast.Import) and all(a.name.split(".")[0] in PURE_STDLIB for a in st.names):
+            for a in st.names:
+                env[(a.asname or a.name).split(".")[0]] = PURE_STDLIB[a.name.split(".")[0]]
         elif isinstance(st, ast.Return):
             raise _Return(self.eval(st.value, env, f) if st.value is not None else None)
         elif isinstance(st, ast.Raise):
@@ -280,6 +284,8 @@ class Interp:
             if d in ("Exception", "BaseException"):
                 return True
             if isinstance(exc, ExcVal) and exc.kind == d:
+                return True
+            if isinstance(exc, ExcVal) and d == "ArithmeticError" and exc.kind in ("OverflowError", "ZeroDivisionError", "FloatingPointError"):
                 return True
         return False
 
@@ -674,7 +680,10 @@ class Interp:
             if name == "iter" and len(args) == 1:
                 return list(args[0])
             if name in ("abs", "round") and name not in self.externals:
-                return {"abs": abs, "round": round}[name](*args)
+                try:
+                    return {"abs": abs, "round": round}[name](*args)
+                except (ArithmeticError, ValueError) as ex:
+                    raise Raised(ExcVal(type(ex).__name__, None, {"message": str(ex)}, getattr(e, "lineno", 0)))
             if name == "reversed":
                 return list(reversed(list(args[0])))
             if name == "sum":
@@ -825,6 +834,11 @@ class Interp:
                 raise Raised(ExcVal("ValueError", None, {"message": f"{args[0]!r} is not a valid {callee.short}"}, getattr(e, "lineno", 0)))
             raise Unmodelled(f"construction of {callee.short} not modelled")
         if callable(callee):
+            if getattr(callee, "__module__", None) in ("math", "calendar", "datetime") or getattr(getattr(callee, "__self__", None), "__name__", None) in ("math", "calendar"):
+                try:
+                    return callee(*args, **kwargs)
+                except (ArithmeticError, ValueError) as ex:  # the standard library's own exception is the program's exception
+                    raise Raised(ExcVal(type(ex).__name__, None, {"message": str(ex)}, getattr(e, "lineno", 0)))
             return callee(*args, **kwargs)
         raise Unmodelled(f"{f.qualname}:{e.lineno} call {src(e)[:60]} not modelled")
 
